@@ -15,6 +15,7 @@
 import PegtlVerif.Lemmas.SemRun
 import PegtlVerif.Lemmas.SemDet
 import PegtlVerif.Lemmas.WftCheck
+import PegtlVerif.Lemmas.AtomExpand
 
 namespace Pegtl.C09
 open Pegtl.Spec
@@ -161,5 +162,47 @@ example : (run (exCx #[97, 97, 97]) 8 3 .action .required {} (exCx #[97, 97, 97]
 /-- "ax": `opt_must< a, b >` raises, blaming `b` (node 1) -/
 example : (run (exCx #[97, 120]) 8 5 .action .required {} (exCx #[97, 120]).start).map absO =
     some (some (.err (.parse 1))) := by decide +kernel
+
+/-! ### multi-byte atoms equal the sequences the rule reference documents -/
+
+/-- `string< c₁, …, cₙ >` ≡ `seq< one< c₁ >, …, one< cₙ > >`: same outcome (success, consumed prefix, or local failure)
+    at every position inside the input, for every input. -/
+theorem C09_string_expansion {G : Nat → Option PExp} {eol : Eol} {inp : Array UInt8} (endp : Nat) (cs : List UInt8) (p : Nat)
+    (hp : p ≤ endp) (o : Outcome) :
+    Sem G eol inp endp (.atom (.string cs)) p o ↔ Sem G eol inp endp (seqL (cs.map oneOf)) p o := by
+  refine sem_iff_of_outcome ?_ (sem_seq_ones endp cs p hp) o
+  rw [← atomOutcome_string (eol := eol)]
+  exact sem_atom_outcome endp _ p
+
+/-- `bytes< N >` ≡ `rep< N, any >`. -/
+theorem C09_bytes_expansion {G : Nat → Option PExp} {eol : Eol} {inp : Array UInt8} (endp n p : Nat) (hp : p ≤ endp) (o : Outcome) :
+    Sem G eol inp endp (.atom (.bytes n)) p o ↔ Sem G eol inp endp (repE n (.atom .any)) p o := by
+  refine sem_iff_of_outcome ?_ (sem_rep_any endp n p hp) o
+  rw [← atomOutcome_bytes (eol := eol) (inp := inp)]
+  exact sem_atom_outcome endp _ p
+
+/-- `istring< c₁, …, cₙ >` ≡ the sequence of per-character tests in which an ASCII letter matches itself and its other case
+    (`ichar_equal`) and every other byte only itself. -/
+theorem C09_istring_expansion {G : Nat → Option PExp} {eol : Eol} {inp : Array UInt8} (endp : Nat) (cs : List UInt8) (p : Nat)
+    (hp : p ≤ endp) (o : Outcome) :
+    Sem G eol inp endp (.atom (.istring cs)) p o ↔ Sem G eol inp endp (seqL (cs.map ioneOf)) p o := by
+  refine sem_iff_of_outcome ?_ (sem_seq_iones endp cs p hp) o
+  rw [← atomOutcome_istring (eol := eol)]
+  exact sem_atom_outcome endp _ p
+
+/-- **contrib `rep_one_min_max< lo, hi, c >`** (a hand-written loop over `peek_char`) ≡ the documented
+    `rep_min_max< lo, hi, one< c > >` = `seq< rep< lo, one< c > >, rep_opt< hi - lo, one< c > >, not_at< one< c > > >`:
+    same outcome at every position of every input — it matches between `lo` and `hi` copies of `c` and fails if a further
+    `c` follows; the model's `atomStep` for it refines this meaning (`atomStep_sem`), and the tie to the header is the
+    differential run. -/
+theorem C09_rep_one_min_max {G : Nat → Option PExp} {eol : Eol} {inp : Array UInt8} (endp lo hi : Nat) (c : UInt8) (p : Nat)
+    (hp : p ≤ endp) (hsz : endp ≤ inp.size) (hlh : lo ≤ hi) (o : Outcome) :
+    Sem G eol inp endp (.atom (.repOne lo hi c)) p o ↔ Sem G eol inp endp (repOneExpansion lo hi c) p o := by
+  refine sem_iff_of_outcome ?_ (sem_repOneExpansion endp lo hi c p hlh) o
+  rw [← atomOutcome_repOne (eol := eol) endp lo hi c p hp hsz hlh]
+  exact sem_atom_outcome endp _ p
+
+example : Sem (fun _ => none) .lfCrlf #[97, 98, 99] 3 (seqL ([97, 98].map oneOf)) 0 (.ok 2) :=
+  (C09_string_expansion 3 [97, 98] 0 (by decide) _).mp (.atomOk (by decide))
 
 end Pegtl.C09
